@@ -1,6 +1,8 @@
 //! A guest program whose translated footprint exceeds the recompiler's fixed
-//! code cache: 127 banks x 256 distinct routines, all called once by a small
-//! table-free driver loop (MBC3, 128 banks: one register write selects a bank).
+//! code cache: 127 banks x 64 distinct routines of 200-239 instructions, all
+//! called once by a small table-free driver loop (MBC3, 128 banks: one register
+//! write selects a bank). About 5 KiB of host code per routine: the 8 MiB cache
+//! is used up after roughly 1200 routines (~5000 block steps).
 
 use super::program::Asm;
 use crate::support;
@@ -11,14 +13,14 @@ pub fn cache_pressure_image() -> (Vec<u8>, String) {
     image[i] = [0x76u8, 0x18, 0xfd, 0x00][i & 3];
   }
   for bank in 1..128usize {
-    for k in 0..256usize {
-      let mut a = Asm::new(0x4000 + (k as u16) * 0x40);
+    for k in 0..64usize {
+      let mut a = Asm::new(0x4000 + (k as u16) * 0x100);
       a.ld_a((bank ^ k) as u8);
-      for _ in 0..(24 + (bank + k) % 24) {
+      for _ in 0..(200 + (bank + k) % 40) {
         a.b(&[0x3c]); // INC A
       }
       a.b(&[0x81, 0x4f, 0xc9]); // ADD A,C; LD C,A; RET
-      let off = bank * 0x4000 + k * 0x40;
+      let off = bank * 0x4000 + k * 0x100;
       image[off..off + a.bytes.len()].copy_from_slice(&a.bytes);
     }
   }
@@ -29,16 +31,26 @@ pub fn cache_pressure_image() -> (Vec<u8>, String) {
   a.b(&[0xf3, 0x31, 0xfe, 0xff, 0x0e, 0x00]); // DI; LD SP,FFFE; LD C,0
   a.b(&[0x06, 0x01]); // LD B,1
   let bank_loop = a.here();
-  a.b(&[0x78]); // LD A,B
-  a.ld_a_to(0x2100);
   a.ld_hl(0x4000);
   let call_loop = a.here();
-  let ret_at = call_loop + 5;
-  a.b(&[0x11, ret_at as u8, (ret_at >> 8) as u8]); // LD DE,ret
-  a.b(&[0xd5]); // PUSH DE
-  a.b(&[0xe9]); // JP HL
-  assert_eq!(a.here(), ret_at);
-  a.b(&[0x11, 0x40, 0x00]); // LD DE,0x0040
+  // the routine at HL in bank B (new code: a translation, sooner or later the
+  // one during which the cache starts over), then the routine at the same
+  // address in bank 1 (translated long ago: whatever the cache holds for this
+  // address now must be bank 1's code)
+  for sel in 0..2 {
+    if sel == 0 {
+      a.b(&[0x78]); // LD A,B
+    } else {
+      a.ld_a(0x01);
+    }
+    a.ld_a_to(0x2100);
+    let ret_at = a.here() + 5;
+    a.b(&[0x11, ret_at as u8, (ret_at >> 8) as u8]); // LD DE,ret
+    a.b(&[0xd5]); // PUSH DE
+    a.b(&[0xe9]); // JP HL
+    assert_eq!(a.here(), ret_at);
+  }
+  a.b(&[0x11, 0x00, 0x01]); // LD DE,0x0100
   a.b(&[0x19]); // ADD HL,DE
   a.b(&[0x7c, 0xfe, 0x80]); // LD A,H; CP 0x80
   let d = (call_loop as i32 - (a.here() as i32 + 2)) as i8;
@@ -54,5 +66,5 @@ pub fn cache_pressure_image() -> (Vec<u8>, String) {
   a.b(&[0x76, 0x18, 0xfd]);
   image[0x0150..0x0150 + a.bytes.len()].copy_from_slice(&a.bytes);
   support::stamp_header(&mut image, 0x13, 0x06, 0x03);
-  (image, "cache pressure: 127 banks x 256 distinct routines called once each".to_string())
+  (image, "cache pressure: 127 banks x 64 distinct routines of 200-239 instructions, called once each".to_string())
 }
